@@ -253,3 +253,26 @@ Theorem remove_fault_releases :
     stepf true cfg s p ORemoveErr = Some (s1, r1, e1) -> stepf true cfg s1 p OClose = Some (s2, r2, e2) ->
     st_pc (ps s2 p) = Idle /\ owner s2 i <> Some p /\ path s2 = path s.
 Proof. exact remove_fault_releases_lemma. Qed.
+
+(* ---- the clean-up in a lock directory that holds semaphore files (runs / steps: cache.lock_dir is shared by the tile
+   locks and the http.concurrent_requests semaphores; a KClean process there runs cleanup_lockdir, whose suffix test
+   `name.endswith('.lck')` matches no slot file `<name>.lck<i>`: time.time(), os.listdir, nothing else).  Faults
+   (OFlockErr) are part of the system. *)
+
+(* At most n inside an n-slot semaphore under every schedule of semaphore users, clean-up passes and faults - with no
+   side condition on the age of the files or on the schedule (what "the clean-up also matches <name>.lck<digits>"
+   breaks: a slot held longer than max_lock_time loses its file and n more contenders enter). *)
+Theorem semaphore_bounded_in_shared_lock_dir :
+  forall cfg n l s pids,
+    (forall p, nslots (cfg p) <= n) -> runs true cfg init l = Some s ->
+    NoDup pids -> (forall p, In p pids -> inside s p) -> length pids <= n.
+Proof. exact bounded_sem_dir_lemma. Qed.
+
+(* No call of such a system (no process removes on unlock: SemLock never does) ever takes the name of a slot file away:
+   a slot file, once created, stays at its path for good - held or not, whatever its age. *)
+Theorem semaphore_files_never_removed :
+  forall cfg s p o s' r e k i,
+    (forall q, removes (cfg q) = false) ->
+    steps true cfg s p o = Some (s', r, e) -> path s k = Some i -> path s' k = Some i.
+Proof. exact sem_dir_paths_stay_lemma. Qed.
+
